@@ -513,14 +513,23 @@ def _d7(chk, fb, fns):
         pair = {}           # abscissa -> value
         conflict = set()
 
+        vowner = {}
+
         def learn(x, v):
             if x is None or v is None or x == v:
                 return False
             if x in pair and pair[x] != v:
                 conflict.add(x)
                 return False
+            if v in vowner and vowner[v] != x:
+                # one value variable filed under two abscissae (a temporary that receives the fresh value in several branches):
+                # neither pairing is used
+                conflict.add(x)
+                conflict.add(vowner[v])
+                return False
             if x not in pair:
                 pair[x] = v
+                vowner[v] = x
                 return True
             return False
         # ground pairs
@@ -651,6 +660,52 @@ def _d7(chk, fb, fns):
     chk.floor("D7", "abscissa/value transfers", n_sites, 10)
 
 
+def _d8(chk, fb):
+    """AbstractOptimizer::init reads 'currentValue_ = function_->getValue()' right after doInit: every doInit must have put the
+    objective at a point of its own choosing (f(P), function.setParameters(P), or a bracketing call that evaluates it) on every
+    normal path, otherwise the value recorded for the start is the value of wherever the objective was left before"""
+    base = fb.q1(AO + "::doInit") if fb.q(AO + "::doInit") else None
+    inits = [f for f in fb.concrete_fns() if f.name == "doInit" and f.body is not None and fb.derives_from(f.cls or "", AO)]
+    n = 0
+    for f in sorted(inits, key=lambda x: x.key):
+        cfg = f.cfg
+        places = []
+        for c in f.calls():
+            nm = c["callee"]["name"]
+            if nm == "f" and "obj" in c and len(f.args(c)) == 1:
+                places.append(c)
+            elif nm == "setParameters" and "obj" in c and ("unction" in render(f.obj(c))):
+                places.append(c)
+            elif nm in ("bracketMinimum", "inwardBracketMinimum", "lineMinimization", "lineSearch"):
+                places.append(c)
+        n += 1
+        if not places:
+            chk.refuted("D8", f.key, "init-places-objective", f.loc(),
+                        "%s::doInit never evaluates the objective or sets its parameters: init() then records function_->getValue() at whatever point the objective was left by earlier use" % (f.cls or "").split("::")[-1],
+                        witness={"history": "optimise once, then init() from a different start: the first step works from the old point's value and derivatives"})
+            continue
+        # a return taken because there is no parameter to optimise places nothing and loses nothing
+        import re as _re
+        empties = set()
+        for b_ in cfg.blocks:
+            for s_ in cfg.succ[b_]:
+                for t_, tr_, _nd in e1.edge_facts(cfg, b_, s_):
+                    if (_re.search(r"[Pp]aram\w*(\.size\(\))? == 0\)$", t_) and tr_) or (_re.search(r"[Pp]aram\w*\.empty\(\)$", t_) and tr_) or (_re.match(r"^\w*[Pp]aram\w*(\.size\(\))?$", t_) and tr_ is False):
+                        empties.add((b_, s_))
+
+        class _V:
+            pass
+        view = _V()
+        view.entry, view.exit, view.blocks, view.is_throw_block = cfg.entry, cfg.exit, cfg.blocks, cfg.is_throw_block
+        view.succ = {b_: [s_ for s_ in cfg.succ[b_] if (b_, s_) not in empties] for b_ in cfg.succ}
+        ok, path = e1.must_pass(view, {cfg.stmt_block(c) for c in places})
+        if ok:
+            chk.proved("D8", f.key, "init-places-objective", f.loc(places[0]), "every normal path passes %s" % render(places[0])[:60])
+        else:
+            chk.refuted("D8", f.key, "init-places-objective", f.loc(), "a path through doInit reaches the exit without placing the objective at a point", witness={"blocks": path})
+    chk.floor("D8", "doInit implementations", n, 8)
+
+
 def run(chk, fb, tier):
     chk.rule("D1", "a loop from which doStep()/step() of the same object is reachable has a condition reading nbEval_ and nbEvalMax_; optimize() overriders delegate to the capped loop")
     chk.rule("D2", "init: parameters_ = params, then autoParameter()/ignoreConstraints() under the policy test, then doInit; policy loops cover 0..size; copies re-apply; bracketing/line search get getParameters()")
@@ -669,6 +724,8 @@ def run(chk, fb, tier):
     from . import copyrule
     chk.rule("DC", "copy constructor and copy assignment of the optimiser classes copy the same members, agree on clone versus share, re-bind cloned helpers to the new object in both, and reset containers before re-populating them")
     copyrule.check(chk, fb, "DC", lambda c: "Bpp/Numeric/Function/" in c["file"] and any(c["file"].endswith(u.replace(".cpp", ".h")) for u in UNITS), floor=1)
+    chk.rule("D8", "every doInit places the objective at a point (f(P) / function.setParameters(P) / a bracketing call) on every normal path, since init() records function_->getValue() right after it")
+    _d8(chk, fb)
     chk.rule("D7", "abscissa/value pairing: pairs grounded in evaluation events and bracket points, propagated through matching transfers of one block; a block that moves an abscissa from one point and the paired value from another is refuted")
     _d7(chk, fb, fns)
     from . import argswap as _argswap
